@@ -55,7 +55,8 @@ LEVEL_TEXT = ("Generated histories whose numeric arguments are aimed at the "
 SCALARS = ["bed-temperature", "chamber-temperature", "hotend-temperature",
            "feed-rate", "tool-number", "tool-power"]
 KINDS = ["min", "max", "below", "above", "in", "in", "in", "far_lo", "far_hi",
-         "nan", "nan", "inf", "-inf", "prev", "prev"]
+         "nan", "nan", "inf", "-inf", "prev", "prev", "zero", "zero"]
+# "zero" = exactly 0 (or -0.0): falsy in Python, the classic 'if value:' trap
 # "prev" = the very value this property/axis was last given in this history
 # (whatever limits were in force then): what a stale cache would let through
 DEFAULT_RANGE = (0.0, 100.0)
@@ -79,6 +80,8 @@ def _resolve(vd, bounds, key):
         if key in PREV:
             return PREV[key]
         k = "in"
+    if k == "zero":
+        return -0.0 if vd["t"] > 0.8 else 0.0
     if k == "min":
         return lo
     if k == "max":
@@ -154,7 +157,7 @@ def op_strategy(only_bounds=False):
         st.tuples(st.sampled_from(["manual", "automatic"]), vd).map(
             lambda t: {"op": "tool_change", "mode": t[0], "v": t[1]}),
         st.tuples(st.sampled_from(["wait-for-bed", "wait-for-hotend", "wait-for-chamber"]),
-                  st.sampled_from(["S", "R"]), vd).map(
+                  st.sampled_from(["S", "R", "s", "r"]), vd).map(
             lambda t: {"op": "halt", "mode": t[0], "letter": t[1], "v": t[2]}),
     )
     misc = st.one_of(
